@@ -61,6 +61,22 @@ def cases(tier, rng, schema, feats):
         n += 1
         out.append(f"C15.rtv.{n}\trtv\twebauthn::PublicKeyCredentialRpEntity\t{{icon=N;id=s{txt};name=S(s{txt})}}")
         n += 1
+    # every integer member of the bidirectional response types at each well-known default value (a member 'not worth sending' when it
+    # equals the default would be lost in the round trip)
+    for t in ENCTY_TYPES:
+        d = schema.get(t)
+        if not d or d["kind"] != "struct" or not (d["de"] and d["ser"]):
+            continue
+        for f in d["fields"]:
+            inner = f["ty"][1] if f["ty"][0] == "opt" else f["ty"]
+            if inner[0] in ("u8", "u16", "u32", "u64", "usize"):
+                mx = {"u8": 255, "u16": 65535}.get(inner[0], 2**32 - 1)
+                for dv in gen.INT_DEFAULTS:
+                    if dv <= mx:
+                        base = g.named_val(t, present=frozenset([f["label"]]))
+                        fs = [(l, (("S", ("i", dv)) if f["ty"][0] == "opt" else ("i", dv)) if l == f["label"] else v) for l, v in base[1]]
+                        out.append(f"C15.rtv.{n}\trtv\t{t}\t{gen.show(('R', fs))}")
+                        n += 1
     # members the SOURCE declares that the specification does not know (none on the unchanged tree): bytes -> value -> bytes
     gnm = gen.Gen(schema, rng, tier, canonical=True)
     for sname, key, val in gen.novel_members(schema, feats):
